@@ -60,6 +60,27 @@ Theorem C02_enum_class_object_refuted :
 Proof. exact enum_class_object_refuted. Qed.
 Print Assumptions C02_enum_class_object_refuted.
 
+Theorem C02_sequence_pattern_str_refuted :
+  exists V c pol o, wf_obj o = true /\ cond_ok c o = true /\ member o V = true /\ holds c o = Some pol /\
+    sequence_pattern_str c o = true /\ member o (narrow V c pol) = false.
+Proof. exact sequence_pattern_str_refuted. Qed.
+Print Assumptions C02_sequence_pattern_str_refuted.
+
+(* match statements: `case [a, b, *rest]` on a union of tuples of different lengths keeps exactly
+   the tuples that can match, and the object that matches is covered by the main theorem *)
+Example C02_match_seq_example :
+  let V := [plain (VTuple [(false, TIntE)]); plain (VTuple [(false, TIntE); (false, TStrE)]);
+            plain (VTuple [(false, TIntE); (false, TStrE); (false, TNoneE)]); plain (VTyped CStr)] in
+  let c := match_seq [EWild; EWild] true [] in
+  narrow V c true = [plain (VTuple [(false, TIntE); (false, TStrE)]);
+                     plain (VTuple [(false, TIntE); (false, TStrE); (false, TNoneE)]);
+                     plain (VGen GSeqPat)] /\
+  holds c (OTuple [LInt 1; LStr []]) = Some true /\ c02_guard c (OTuple [LInt 1; LStr []]) = true /\
+  holds c (OTuple [LInt 1]) = Some false /\ holds c (OStr [97%N]) = Some false /\
+  narrow V c false = V.
+Proof. exact match_seq_example. Qed.
+Print Assumptions C02_match_seq_example.
+
 Example C02_narrow_guard_inhabited :
   let V := [plain (VTyped CInt); plain (VTyped CStr); plain (VKnown ONone); plain (VTyped CE)] in
   let c := CAnd (CNot (CIs ONone)) (COr (CIsInstance [CInt; CBool]) (CEq (OEnum CE 0))) in
